@@ -20,28 +20,26 @@ def showPred : Pred → String
   | .recursion m => s!"err:recursion\t{m.depthHW}\t{m.nativeHW}"
   | .other w => s!"model:{w}\t0\t0"
 
-def predict (shape : String) (limit budget : Nat) : Option Pred :=
+def predict (shape : String) (limit budget : Nat) : Option (Pred × Nat) :=
   let b : Option Nat := if budget = 0 then none else some budget
   match shape.splitOn ":" with
   | ["N", spec] =>
     match spec.toList with
-    | [c, n] => some (predictNoise c n limit)
+    | [c, n] => some (predictNoise c n limit, 0)
     | _ => none
   | [fam, spec] =>
     match fam.toList, parseEdges spec with
     | [f], some edges =>
-      if f = 'T' ∨ f = 'M' ∨ f = 'B' then some (predictCycle f edges limit b) else none
+      if f = 'T' ∨ f = 'M' ∨ f = 'B' then some (predictCycleV f edges limit b) else none
     | _, _ => none
-  | ["S", n, _v] => n.toNat?.map (predictSuper · limit)
-  | ["L", d, _v] => d.toNat?.map (predictLoop · limit)
+  | ["S", n, _v] => n.toNat?.map (fun n => (predictSuper n limit, 0))
+  | ["L", d, _v] => d.toNat?.map (fun d => (predictLoop d limit, 0))
   | _ => none
 
-/-- `Template::new_state()` + `State::render_block`: the context starts without a frame and there
-    is no root activation, so every depth is one less than in a render of the same program: the
-    run with limit `L` behaves like a render with limit `L + 1`, marks shifted by one -/
-def unshift : Pred → Pred
-  | .ok m => .ok ⟨m.depthHW - 1, m.nativeHW - 1⟩
-  | .recursion m => .recursion ⟨m.depthHW - 1, m.nativeHW - 1⟩
+/-- marks shifted: `dd` off the depth, `dn` off the nesting -/
+def unshift (dd dn : Nat) : Pred → Pred
+  | .ok m => .ok ⟨m.depthHW - dd, m.nativeHW - dn⟩
+  | .recursion m => .recursion ⟨m.depthHW - dd, m.nativeHW - dn⟩
   | p => p
 
 def handle (line : String) : String :=
@@ -51,13 +49,22 @@ def handle (line : String) : String :=
     match limit.toNat?, budget.toNat? with
     | some l, some b =>
       let l' := setRecursionLimit l
-      let r := if thread.endsWith "+state" then (predict shape (l' + 1) b).map unshift
-               else predict shape l' b
+      let toks := thread.splitOn "+"
+      let r :=
+        -- `Template::new_state()` + `State::render_block`: the context starts without a frame and
+        -- there is no root activation, so every depth is one less than in a render of the same
+        -- program: limit `L` behaves like a render with limit `L + 1`, marks shifted by one
+        if toks.contains "state" then (predict shape (l' + 1) b).map (fun (p, v) => (unshift 1 1 p, v))
+        -- a macro / block called from Rust on the state of a finished render: the root frame is
+        -- there, the root activation is not
+        else if toks.contains "capcall" ∨ toks.contains "caprb" then
+          (predict shape l' b).map (fun (p, v) => (unshift 0 1 p, v))
+        else predict shape l' b
       match r with
-      | some p => s!"{case}\t{showPred p}"
-      | none => s!"{case}\tbad-case\t0\t0"
-    | _, _ => s!"{case}\tbad-case\t0\t0"
-  | _ => s!"{case}\tbad-case\t0\t0"
+      | some (p, v) => s!"{case}\t{showPred p}\t{v}"
+      | none => s!"{case}\tbad-case\t0\t0\t0"
+    | _, _ => s!"{case}\tbad-case\t0\t0\t0"
+  | _ => s!"{case}\tbad-case\t0\t0\t0"
 
 partial def loop (h : IO.FS.Stream) (out : IO.FS.Stream) : IO Unit := do
   let line ← h.getLine
